@@ -4,6 +4,7 @@
    is_err, is_err_on}, the const-eval loop building ENCODED_INDICES_BY_LEADING_ZEROS and the
    non-clz fallback.  `binary_search` is std's, taken by contract: on a strictly increasing
    slice both Ok(i) and Err(i) equal the number of elements < x ([rank]). *)
+From TlshV Require Export Spec.Types.
 From TlshV Require Import Model.Machine Gen.Tables.
 
 Definition clz32 (x : N) : N := 32 - N.size x.
@@ -59,9 +60,6 @@ Definition range (lvalue : N) : outcome unit (option (N * N)) :=
     (* `+ 1` on u32: overflow would panic in debug / wrap in release *)
     if b + 1 <? two32 then Ok (Some (b + 1, t)) else Panic.
 
-Inductive parse_error :=
-| LengthIsTooLarge | InvalidPrefix | InvalidCharacter | InvalidStringLength | InvalidChecksum.
-
 Definition try_from_u32 (c : len_cfg) (unsafe_f dbg : bool) (len : N) : outcome parse_error N :=
   match encode_new c unsafe_f dbg len with
   | Ok (Some v) => Ok v
@@ -72,10 +70,6 @@ Definition try_from_u32 (c : len_cfg) (unsafe_f dbg : bool) (len : N) : outcome 
   end.
 
 (* DataLengthValidity *)
-Inductive validity := TooSmall | ValidWhenOptimistic | Valid | TooLarge.
-Inductive len_mode := Optimistic | Conservative.
-
-Inductive buckets_kind := B48 | B128 | B256.
 Definition len_min (b : buckets_kind) : N :=
   match b with B48 => len_min_short | B128 => len_min_normal | B256 => len_min_long end.
 Definition len_min_conservative (b : buckets_kind) : N :=
